@@ -4,7 +4,7 @@
 // paths, at most once per notification, never after removal, and without
 // disturbing other subscribers registered at the same paths.
 //
-// Five generated parts share this file's vocabulary:
+// The generated parts share this file's vocabulary:
 //
 //	exhaustive  all (subscription path, update path) pairs of length 0-4 over
 //	            {a,b,*}, all two-registration triples of length 0-2, and the
@@ -20,6 +20,11 @@
 //	atomic      container notifications (a prefix and 1-5 members, atomic or
 //	            not) against subscribers placed around the container, judged at
 //	            the match, server and real-cache layers (atomic.go)
+//	size        table notifications of 1 - 1100 entries (counts sampled around
+//	            64 / 128 / 1024; atomic or not; updates and/or deletes) against
+//	            subscribers placed by the position of a cell in the notification,
+//	            judged at the same three layers and at the match layer with the
+//	            prefix/entry boundary at every position (size.go)
 //
 // The generators of the random, server and inflight parts are in gen_test.go /
 // inflight_test.go; derive.go holds the path derivations (twins under a
